@@ -50,8 +50,13 @@ pub enum Ev {
     LOnDetachS,
     /// the peer sends two pre-settled transfers on the link where the library is the receiver
     PXfer2,
+    /// the peer asks for state with echo=true: a link flow on the sender link as long as the PEER has not sent its
+    /// detach for it (else a bare session flow), as long as the peer has not sent its end.  After a local detach /
+    /// end that the peer has not answered yet this is a frame that crossed it: legal for the peer, and the
+    /// library can no longer answer it
+    PFlowEcho,
 }
-pub const ALPHABET: [Ev; 26] = [
+pub const ALPHABET: [Ev; 27] = [
     Ev::LAttachS,
     Ev::LSend,
     Ev::LCloseS,
@@ -78,6 +83,7 @@ pub const ALPHABET: [Ev; 26] = [
     Ev::PDupAttach,
     Ev::LOnDetachS,
     Ev::PXfer2,
+    Ev::PFlowEcho,
 ];
 
 #[derive(Debug, Clone, Default)]
@@ -231,6 +237,7 @@ pub async fn scenario(events: Vec<Ev>) -> Obs {
             Ev::PRefuseAttach => !refuse_next_attach && peer_ended.is_none() && !session_over,
             Ev::PTransferUnattached => peer_ended.is_none() && !session_over,
             Ev::PXfer2 => rcv_handle.is_some() && peer_ended.is_none() && !session_over && peer_xfers < 20,
+            Ev::PFlowEcho => peer_ended.is_none() && c.peer.sessions.get(&0).map(|s| s.lib_begin_seen && !s.end_sent).unwrap_or(false),
             Ev::PDupAttach => snd_handle.is_some() && peer_detached_s.is_none() && peer_ended.is_none() && !session_over,
         };
         if !enabled {
@@ -602,6 +609,28 @@ pub async fn scenario(events: Vec<Ev>) -> Obs {
                     c.peer.send_perf(0, Performative::Transfer(t), &[0x00, 0x53, 0x77, 0x40]);
                     peer_xfers += 1;
                 }
+            }
+            Ev::PFlowEcho => {
+                // the peer's own view of link "s": attached by it and not yet detached by it (read from what it wrote)
+                let link = c.peer.links.iter().rev().find(|l| l.lib_channel == 0 && l.name == "s").cloned().filter(|l| {
+                    let mut attached = false;
+                    for w in c.peer.trace.iter().filter(|w| w.dir == Dirn::FromPeer) {
+                        match &w.body {
+                            Body::Perf(Performative::Attach(a)) if a.handle.0 == l.our_handle => attached = true,
+                            Body::Perf(Performative::Detach(d)) if d.handle.0 == l.our_handle => attached = false,
+                            _ => {}
+                        }
+                    }
+                    attached
+                });
+                let mut f = c.peer.flow_for(0);
+                f.echo = true;
+                if let Some(l) = link {
+                    f.handle = Some(Handle(l.our_handle));
+                    f.delivery_count = Some(l.delivery_count);
+                    f.link_credit = Some(100);
+                }
+                c.peer.send(0, Performative::Flow(f));
             }
             Ev::PTransferUnattached => {
                 let t = Transfer {
